@@ -72,6 +72,8 @@ class AbsEval:
 
     # ---- values -------------------------------------------------------------
     def memcmp(self, p, q, n):
+        if n == 0:
+            return 0            # zero bytes compare equal whatever the operands are
         if p == ('P', A) and q == ('P', B):
             sg = 1
         elif p == ('P', B) and q == ('P', A):
@@ -127,6 +129,8 @@ class AbsEval:
             return 0
         if k == 'MemberExpr':
             base = self.ev(f.ch(n)[0]) if f.ch(n) else None
+            if isinstance(base, tuple) and base and base[0] == 'TUP' and n.get('name') in ('first', 'second'):
+                return base[1][0 if n['name'] == 'first' else 1]
             key = (base[1] if isinstance(base, tuple) and base[0] == 'OBJ' else None, n['name'])
             if key in b.get('members', {}):
                 return self._bound(b['members'][key])
@@ -190,6 +194,12 @@ class AbsEval:
                 return 0
             if len(cs) == 1 and (n.get('ty') or '') in ('bool', 'int', 'unsigned long', 'unsigned char', 'unsigned int'):
                 return self.ev(cs[0])
+            if len(cs) == 1 and 'initializer_list' not in (n.get('ty') or '') and \
+                    not (n.get('ty') or '').startswith('std::'):
+                v1 = self.ev(cs[0])
+                if isinstance(v1, int):
+                    return v1          # `T x{e}` for a scalar typedef
+                return [v1]
             return [self.ev(c) for c in cs]
         if k in ('CXXScalarValueInitExpr', 'ImplicitValueInitExpr'):
             return 0
@@ -211,12 +221,32 @@ class AbsEval:
                         self.env[tgt['id']] = A
                         return 0
                 raise AnalysisBroken('E-CMP: unmodelled memcpy at %s' % n.get('loc'))
-            if cq.startswith('std::min'):
+            if cq.startswith('std::min') or cq.startswith('std::max'):
                 vals = []
                 for a in args:
                     v = self.ev(a)
                     vals.extend(v if isinstance(v, list) else [v])
-                return min(vals)
+                return min(vals) if cq.startswith('std::min') else max(vals)
+            # small value aggregates: pairs / tuples of abstract values (a helper returning (slice, length), a
+            # lexicographic compare written with std::tie)
+            if cq in ('std::make_pair', 'std::make_tuple', 'std::tie', 'std::forward_as_tuple'):
+                return ('TUP', tuple(self.ev(a) for a in args))
+            if cq == 'std::get':
+                import re as _re
+                m_ = _re.match(r'std::get<(\d+)', n.get('callee') or '')
+                v = self.ev(args[0])
+                if m_ and isinstance(v, tuple) and v and v[0] == 'TUP':
+                    return v[1][int(m_.group(1))]
+                raise AnalysisBroken('E-CMP: std::get on a non-tuple at %s' % n.get('loc'))
+            if cq in ('std::operator<', 'std::operator>', 'std::operator<=', 'std::operator>=', 'std::operator==',
+                      'std::operator!=') and len(args) == 2:
+                x, y = self.ev(args[0]), self.ev(args[1])
+                if isinstance(x, tuple) and isinstance(y, tuple) and x[0] == 'TUP' and y[0] == 'TUP' and \
+                        all(isinstance(c_, int) for c_ in x[1] + y[1]):
+                    op_ = cq[len('std::operator'):]
+                    return int({'<': x[1] < y[1], '>': x[1] > y[1], '<=': x[1] <= y[1], '>=': x[1] >= y[1],
+                                '==': x[1] == y[1], '!=': x[1] != y[1]}[op_])
+                raise AnalysisBroken('E-CMP: tuple comparison of non-integers at %s' % n.get('loc'))
             if cq in b.get('calls', {}):
                 return self._bound(b['calls'][cq])
             if cq.startswith('std::array') and n.get('cn') in ('at', 'operator[]'):
@@ -232,6 +262,11 @@ class AbsEval:
             if n['k'] == 'CXXOperatorCallExpr' and n.get('lambda_call'):
                 raise AnalysisBroken('E-CMP: lambda in comparison slice')
             raise AnalysisBroken('E-CMP: unmodelled call %s at %s in %s' % (cq, n.get('loc'), f.qname))
+        if k == 'CXXConstructExpr' and ('std::pair<' in (n.get('ctor') or '') or 'std::tuple<' in (n.get('ctor') or '')):
+            a_ = [self.ev(x) for x in n.get('args', [])]
+            if len(a_) == 1 and isinstance(a_[0], tuple) and a_[0] and a_[0][0] == 'TUP':
+                return a_[0]
+            return ('TUP', tuple(a_))
         if k == 'DeclStmt':
             for v in n.get('vars', []):
                 if 'init' in v:
